@@ -174,3 +174,19 @@ PROPS["C19"] = dict(
     pregen=[drivers.c19_pregen],
     drivers=[drivers.c19_mt_driver],
 )
+
+PROPS["C01"] = dict(
+    rule=("140 (quick) / 2500 (thorough) archives over version V1..V4 x sector shift {0,1,2,3,5,8} x method {none, zlib, bzip2, "
+          "LZMA, sparse} x {plain, encrypted, encrypted+fix-key} x sector CRC x attributes {none, CRC32, full} x listfile x table "
+          "compression, 1..6 files each of length {0, 1..5, sector-1, sector, sector+1, 2 sectors, 3 sectors+7, random} x "
+          "{random, constant, periodic, sparse, text}; every file read under 4 spellings, never-added names, listing and sizes "
+          "(oracle); the Lean reader on the Rust-built bytes with a codec table computed by the public compressor; the Lean "
+          "writer's archives (V1/V2) read by the Rust reader. non-trivial = a multi-sector file that round-trips"),
+    trusted_base=COMMON_TB + [
+        "third-party codecs enter the model as a finite table stored-unit -> plain-unit built with wow_mpq::compress",
+        "the whole-archive composition read(open(build files)) = files is established per run by the two-way correspondence, "
+        "not as a single theorem; HET/BET tables, attribute timestamps, user-data headers are not modelled",
+        "probe_mirror is stated for any duplicate-free probe order; that probeSeq is duplicate-free is validated by the run, not proved"],
+    assumptions=["no 64-bit name-hash collision between distinct folded names", "codec round trip on the explored units"],
+    drivers=[drivers.c01_write_driver],
+)
